@@ -2,7 +2,9 @@
 # runs every registered check (quick by default) and prints one status line per property
 tier=${1:-quick}
 cd "$(dirname "$0")/.."
-for p in $(python3 -c "import json;print(' '.join(c['property_id'] for c in json.load(open('MANIFEST.json'))['checks']))"); do
+props="${@:2}"
+[ -z "$props" ] && props=$(python3 -c "import json;print(' '.join(c['property_id'] for c in json.load(open('MANIFEST.json'))['checks']))")
+for p in $props; do
   t0=$(date +%s)
   out=$(./check $p --tier $tier 2>&1); rc=$?
   echo "$p rc=$rc $(( $(date +%s)-t0 ))s $(echo "$out" | grep -E '^\[C..\] done' | sed 's/.*done //') $(echo "$out" | grep -c '^KNOWN-FINDING') known"
